@@ -9,17 +9,20 @@
    unfired entries are still pending in s0).  [do_call fuel s0 t c] runs thread t's call
    c to completion with t running alone (virtual time jumps to t's own deadlines);
    results: RTrue / RFalse / RTimeout (TimeoutError of acquire_ctx / with) / ROSErr
-   (a re-raised OSError) / RNone (release) / RWouldBlock (waits for something only
+   (a re-raised injected exception: OSError or the interrupt flavour, see below) / RNone (release) / RWouldBlock (waits for something only
    another thread can do) / ROutOfFuel.  [normalise ob blk tm] is filelock.py l.135-139
    (argument normalisation).                                                       *)
 From Coq Require Import List Arith NArith Bool.
 Import ListNotations.
 Require Import Aiuti.FLock Aiuti.FLockInv Aiuti.FLockSpec Aiuti.FLockTL Aiuti.FLockFD Aiuti.FLockMutex
-               Aiuti.FLockExec Aiuti.FLockAcq Aiuti.FLockRel Aiuti.FLockTerm Aiuti.FLockSeq Aiuti.FLockMon12.
+               Aiuti.FLockExec Aiuti.FLockAcq Aiuti.FLockRel Aiuti.FLockTerm Aiuti.FLockSeq Aiuti.FLockMon12 Aiuti.FLockSound.
 Require Aiuti.Case_C12.
 
-(* A failing acquire — False, TimeoutError or a re-raised OSError — under EVERY fault
-   script (any number of OSErrors in open / lock / unlock / close), from every
+(* A failing acquire — False, TimeoutError or a re-raised injected exception — under EVERY
+   fault script: any number of faults at open / lock / unlock / close, each of flavour
+   OSError or "interrupt" (a BaseException that is not an Exception, e.g. KeyboardInterrupt
+   out of a blocking flock; the model follows filelock.py: swallowed vs re-raised at open,
+   close-and-retry vs close-and-re-raise at flock, alike at unlock / close), from every
    reachable state, for every flavour: every object is exactly as before (counter
    restored, thread lock given back, no descriptor recorded), the table of open
    descriptors is exactly as before (nothing leaked), the kernel holder is untouched,
@@ -102,7 +105,7 @@ Print Assumptions release_faults.
    [spec_calls] = the spec; [ok_calls] = the property's contract along the sequence
    (a thread releases only a lock it holds or an unheld one); [call_fuel_ok] = a timed
    acquire has poll >= 1 and the fuel covers its polling (5*((T+poll)/poll)+16);
-   [Rq reent dflt s st] = representation invariant + abstraction: all threads idle, no
+   [Rq reent dflt oproc tproc s st] = representation invariant + abstraction: all threads idle, no
    OSError scripted, st = None <-> no object records a descriptor, every thread lock free,
    counters 0, kernel lock free; st = Some (o,t,d) <-> o records the descriptor that holds
    the kernel lock, thread-lock owner t, counter = RLock depth = d >= 1 (d = 1 unless
@@ -126,23 +129,50 @@ Theorem refines_rlock_spec :
     let spec := spec_calls reent dflt None ops in
     fst conc = fst spec /\
     (no_block (fst spec) = true ->
-       Rq reent dflt (snd conc) (snd spec) /\
+       Rq reent dflt (fun _ => 0) (fun _ => 0) (snd conc) (snd spec) /\
        (forall o, is_locked (snd conc) o = spec_is_locked (snd spec) o) /\
        nfds (snd conc) = match snd spec with Some _ => 1 | None => 0 end).
 Proof. exact refines_rlock_spec_lemma. Qed.
 Print Assumptions refines_rlock_spec.
 
+(* The same for objects and threads of SEVERAL processes on the one lock path
+   (init_cfg: every object and thread has a process; [call_proc_ok]: a thread uses objects of
+   its own process).  The abstract state is still ONE optional (object, thread, depth), so
+   "at most one (process, object) holds the path" is true by construction, and an acquire
+   through an object of another process is refused / blocks exactly like one through another
+   object of the same process.  [Rq reent dflt oproc tproc]: as above, with the process of
+   every object and thread fixed by the configuration. *)
+Theorem refines_rlock_spec_procs :
+  forall ocfg tcfg ops fuel,
+    let reent := cfgo_reent ocfg in
+    let dflt := cfgo_dflt ocfg in
+    let oproc := cfgo_proc ocfg in
+    let tproc := cfgt_proc tcfg in
+    ok_calls reent dflt None ops = true ->
+    (forall tc, In tc ops -> call_proc_ok oproc tproc tc) ->
+    (forall tc, In tc ops -> call_fuel_ok dflt fuel (snd tc)) ->
+    length ops + 4 <= fuel ->
+    let conc := run_calls fuel (init_cfg ocfg tcfg []) ops in
+    let spec := spec_calls reent dflt None ops in
+    fst conc = fst spec /\
+    (no_block (fst spec) = true ->
+       Rq reent dflt oproc tproc (snd conc) (snd spec) /\
+       (forall o, is_locked (snd conc) o = spec_is_locked (snd spec) o) /\
+       nfds (snd conc) = match snd spec with Some _ => 1 | None => 0 end).
+Proof. exact refines_rlock_spec_procs_lemma. Qed.
+Print Assumptions refines_rlock_spec_procs.
+
 (* acquire reports the truth, in every state between two calls (Rq): it returns True
    exactly when the spec grants the lock, and then the caller holds it (is_locked true,
    depth +1); False / TimeoutError leave the abstract state as it was. *)
 Theorem acquire_true_iff_holds :
-  forall reent dflt s st t o m blk tm poll skip fuel,
-    Rq reent dflt s st -> call_fuel_ok dflt fuel (CAcq o m blk tm poll skip) ->
+  forall reent dflt oproc tproc s st t o m blk tm poll skip fuel,
+    Rq reent dflt oproc tproc s st -> oproc o = tproc t -> call_fuel_ok dflt fuel (CAcq o m blk tm poll skip) ->
     let res := do_call fuel s t (CAcq o m blk tm poll skip) in
     let st' := fst (spec_acquire st t o (reent o)) in
     (snd res = RTrue <-> snd (spec_acquire st t o (reent o)) = true) /\
-    (snd res = RTrue -> Rq reent dflt (fst res) st' /\ exists d, held st' o = Some (t, d) /\ is_locked (fst res) o = true) /\
-    (snd res = RFalse \/ snd res = RTimeout -> Rq reent dflt (fst res) st /\ st' = st).
+    (snd res = RTrue -> Rq reent dflt oproc tproc (fst res) st' /\ exists d, held st' o = Some (t, d) /\ is_locked (fst res) o = true) /\
+    (snd res = RFalse \/ snd res = RTimeout -> Rq reent dflt oproc tproc (fst res) st /\ st' = st).
 Proof. exact acquire_true_iff_holds_lemma. Qed.
 Print Assumptions acquire_true_iff_holds.
 
@@ -150,32 +180,32 @@ Print Assumptions acquire_true_iff_holds.
    locked and ANY thread can acquire ANY object again at once (the statement the
    unrepaired release(force) broke, F6). *)
 Theorem reacquire_after_release :
-  forall reent dflt s o t d force fuel t2 o2 m blk tm poll skip,
-    Rq reent dflt s (Some (o, t, d)) -> (force = true \/ d = 1) ->
-    d + 4 <= fuel -> call_fuel_ok dflt fuel (CAcq o2 m blk tm poll skip) ->
+  forall reent dflt oproc tproc s o t d force fuel t2 o2 m blk tm poll skip,
+    Rq reent dflt oproc tproc s (Some (o, t, d)) -> (force = true \/ d = 1) ->
+    d + 4 <= fuel -> oproc o2 = tproc t2 -> call_fuel_ok dflt fuel (CAcq o2 m blk tm poll skip) ->
     let s1 := fst (do_call fuel s t (CRel o force)) in
-    Rq reent dflt s1 None /\ (forall o', is_locked s1 o' = false) /\
+    Rq reent dflt oproc tproc s1 None /\ (forall o', is_locked s1 o' = false) /\
     snd (do_call fuel s1 t2 (CAcq o2 m blk tm poll skip)) = RTrue.
 Proof. exact reacquire_after_release_lemma. Qed.
 Print Assumptions reacquire_after_release.
 
 (* A non-reentrant lock refuses a second acquire, also by its own holder. *)
 Theorem nonreentrant_refuses_second_acquire :
-  forall reent dflt s o t d t2 m blk tm poll skip fuel,
-    Rq reent dflt s (Some (o, t, d)) -> reent o = false ->
+  forall reent dflt oproc tproc s o t d t2 m blk tm poll skip fuel,
+    Rq reent dflt oproc tproc s (Some (o, t, d)) -> reent o = false -> oproc o = tproc t2 ->
     call_fuel_ok dflt fuel (CAcq o m blk tm poll skip) ->
     let res := do_call fuel s t2 (CAcq o m blk tm poll skip) in
     snd res = spec_no (dflt o) m blk tm /\ snd res <> RTrue /\
-    (snd res <> RWouldBlock -> Rq reent dflt (fst res) (Some (o, t, d))).
+    (snd res <> RWouldBlock -> Rq reent dflt oproc tproc (fst res) (Some (o, t, d))).
 Proof. exact nonreentrant_refuses_lemma. Qed.
 Print Assumptions nonreentrant_refuses_second_acquire.
 
 (* A reentrant lock is released only by the release matching its outermost acquire. *)
 Theorem only_outermost_release_frees :
-  forall reent dflt s o t d fuel,
-    Rq reent dflt s (Some (o, t, d)) -> 2 <= d -> d + 4 <= fuel ->
+  forall reent dflt oproc tproc s o t d fuel,
+    Rq reent dflt oproc tproc s (Some (o, t, d)) -> 2 <= d -> d + 4 <= fuel ->
     let s1 := fst (do_call fuel s t (CRel o false)) in
-    Rq reent dflt s1 (Some (o, t, pred d)) /\ is_locked s1 o = true.
+    Rq reent dflt oproc tproc s1 (Some (o, t, pred d)) /\ is_locked s1 o = true.
 Proof. exact only_outermost_release_frees_lemma. Qed.
 Print Assumptions only_outermost_release_frees.
 
@@ -195,6 +225,25 @@ Theorem monitor_complete :
 Proof. exact monitor_complete_C12_lemma. Qed.
 Print Assumptions monitor_complete.
 
+(* Model-free soundness: what acceptance means for an OBSERVED trace.  If the monitor accepts
+   a case in which no injected fault fired ([clean]) and the observed calls respect the
+   contract ([contract]: decided on the abstract spec alone), then no kernel/table mismatch
+   was seen, every call was answered unless the last one blocks, and the observations
+   [conforms] to the abstract Lock/RLock spec along the observed call sequence: every result is
+   the spec's result; after every call is_locked of every object, the number of open
+   descriptors (1 iff held) and the "who could acquire now" probes are those of the spec's
+   state; a non-blocking acquire took no time, a timed one at most T + T + poll, a release
+   none (FLockSound.v; the model FLock.v is not mentioned). *)
+Theorem monitor_sound :
+  forall nT cfg fl ops observed km,
+    Case_C12.ok (Case_C12.CSeq nT cfg fl ops observed km) = true ->
+    S12.contract cfg None ops (length observed) = true -> S12.clean observed ->
+    km = 0 /\ S12.conforms nT cfg None ops observed /\
+    (length observed = length ops \/
+     exists x rest, rev observed = x :: rest /\ fst (fst (fst (fst (fst (fst x))))) = RWouldBlock).
+Proof. exact S12.monitor_sound_C12_lemma. Qed.
+Print Assumptions monitor_sound.
+
 (* Non-vacuity of the sequential theorems: an 8-call sequence with nesting, a refused
    acquire by the other thread, a polling with-statement that times out, an inner and
    a forced release, a re-acquire by the other thread on the other object, a no-op
@@ -211,6 +260,33 @@ Example refines_example :
   no_block (fst (spec_calls (Case_C12.cfg_reent ex_cfg) (Case_C12.cfg_dflt ex_cfg) None ex_ops)) = true /\
   snd (spec_calls (Case_C12.cfg_reent ex_cfg) (Case_C12.cfg_dflt ex_cfg) None ex_ops) = Some (1, 1, 1).
 Proof. vm_compute. repeat split. Qed.
+(* three processes: object i and thread i belong to process i+1 *)
+Definition exp_ocfg : list (pid * bool * tmo) := [(1, true, TNeg); (2, false, TVal 4%N); (3, false, TNeg)].
+Definition exp_tcfg : list (pid * list call) := [(1, []); (2, []); (3, [])].
+Definition exp_ops : list (tid * call) :=
+  [(0, CAcq 0 MPlain true TNone 2%N 0); (1, CAcq 1 MWith true TNone 2%N 0); (2, CAcq 2 MPlain false TNone 2%N 0);
+   (0, CAcq 0 MCtx true TNone 2%N 0); (0, CRel 0 true); (2, CAcq 2 MPlain true TNone 2%N 0); (1, CAcq 1 MPlain true (TVal 2%N) 2%N 0)].
+Example refines_procs_example :
+  ok_calls (cfgo_reent exp_ocfg) (cfgo_dflt exp_ocfg) None exp_ops = true /\
+  fst (run_calls 40 (init_cfg exp_ocfg exp_tcfg []) exp_ops) = [RTrue; RTimeout; RFalse; RTrue; RNone; RTrue; RFalse] /\
+  snd (spec_calls (cfgo_reent exp_ocfg) (cfgo_dflt exp_ocfg) None exp_ops) = Some (2, 2, 1).
+Proof. vm_compute. repeat split. Qed.
+Example refines_procs_example_hyps : forall tc, In tc exp_ops ->
+  call_proc_ok (cfgo_proc exp_ocfg) (cfgt_proc exp_tcfg) tc /\ call_fuel_ok (cfgo_dflt exp_ocfg) 40 (snd tc).
+Proof.
+  intros tc H. cbn in H.
+  repeat (destruct H as [<-|H];
+    [split; [vm_compute; auto|cbn; first [exact I | split; [intros T E; vm_compute in E; try discriminate; vm_compute; discriminate|vm_compute; repeat constructor]]]|]).
+  destruct H.
+Qed.
+
+Example monitor_sound_example :
+  let obs := Case_C12.model_trace (Case_C12.CSeq 2 ex_cfg [] ex_ops [] 0) in
+  Case_C12.ok (Case_C12.CSeq 2 ex_cfg [] ex_ops obs 0) = true /\
+  S12.contract ex_cfg None ex_ops (length obs) = true /\
+  forallb (fun x : Case_C12.sobs => match x with (_, _, _, _, fi, _, pf) => Nat.eqb fi 0 && Nat.eqb pf 0 end) obs = true.
+Proof. vm_compute. repeat split. Qed.
+
 Example refines_example_fuel : forall tc, In tc ex_ops -> call_fuel_ok (Case_C12.cfg_dflt ex_cfg) 40 (snd tc).
 Proof.
   intros tc H. cbn in H.
@@ -225,7 +301,7 @@ Qed.
    injected into the close after the failed flock the acquire re-raises it; a release
    with OSErrors in both unlock and close still gives the lock up. *)
 Definition acq (o : oid) : call := CAcq o MPlain true TNone 2%N 0.
-Definition ex0 (fl : list (skind * nat)) : state :=
+Definition ex0 (fl : list (skind * nat * bool)) : state :=
   run (init_cfg [(0, true, TNeg); (0, false, TVal 4%N)] [(0, []); (0, [acq 1])] fl) [EStep 1; EStep 1; EStep 1; EStep 1].
 Example ex0_hyps :
   viol (ex0 []) = false /\ t_pc (thr (ex0 []) 0) = PIdle /\ dead (ex0 []) (t_proc (thr (ex0 []) 0)) = false /\
@@ -237,11 +313,19 @@ Example fail_examples :
   snd (do_call 50 (ex0 []) 0 (CAcq 0 MCtx true (TVal 5%N) 2%N 0)) = RTimeout /\
   snd (normalise (objs (ex0 []) 0) true (TVal 5%N)) = TVal 5%N /\
   now (fst (do_call 50 (ex0 []) 0 (CAcq 0 MCtx true (TVal 5%N) 2%N 0))) = 6%N /\
-  snd (do_call 50 (ex0 [(KClose, 0)]) 0 (CAcq 0 MPlain true (TVal 5%N) 2%N 0)) = ROSErr /\
-  nfired (fst (do_call 50 (ex0 [(KClose, 0)]) 0 (CAcq 0 MPlain true (TVal 5%N) 2%N 0))) = 1.
+  snd (do_call 50 (ex0 [(KClose, 0, false)]) 0 (CAcq 0 MPlain true (TVal 5%N) 2%N 0)) = ROSErr /\
+  nfired (fst (do_call 50 (ex0 [(KClose, 0, false)]) 0 (CAcq 0 MPlain true (TVal 5%N) 2%N 0))) = 1.
+Proof. vm_compute. repeat split. Qed.
+(* the interrupt flavour (KeyboardInterrupt): out of flock -> the descriptor is closed and the call re-raises
+   (fix ad374ce); out of open -> nothing was opened, clean-up, re-raise; in both cases no descriptor is left *)
+Example fail_examples_interrupt :
+  snd (do_call 50 (ex0 [(KLock, 1, true)]) 0 (CAcq 0 MPlain true TNone 2%N 0)) = ROSErr /\
+  nfds (fst (do_call 50 (ex0 [(KLock, 1, true)]) 0 (CAcq 0 MPlain true TNone 2%N 0))) = nfds (ex0 [(KLock, 1, true)]) /\
+  snd (do_call 50 (ex0 [(KOpen, 1, true)]) 0 (CAcq 0 MWith true TNone 2%N 0)) = ROSErr /\
+  snd (do_call 50 (ex0 [(KLock, 1, false)]) 0 (CAcq 0 MPlain false TNone 2%N 0)) = RFalse.
 Proof. vm_compute. repeat split. Qed.
 Example release_faults_example :
-  let s0 := ex0 [(KUnlock, 0); (KClose, 0)] in
+  let s0 := ex0 [(KUnlock, 0, true); (KClose, 0, false)] in
   viol s0 = false /\ o_fd (objs s0 1) = Some 0 /\ o_own (objs s0 1) = Some 1 /\ o_cnt (objs s0 1) = 1 /\
   o_dep (objs s0 1) = o_cnt (objs s0 1) /\
   nfired (fst (do_call 5 s0 1 (CRel 1 false))) = 2 /\ holder (fst (do_call 5 s0 1 (CRel 1 false))) = None.
